@@ -280,6 +280,18 @@ type serializableFrame[K comparable] struct {
 	Series []Series `json:"series" msgpack:"series"`
 }
 
+// validate checks the one invariant every Frame method relies on: the series are
+// addressed by the position of their key. Decoded frames come from the network.
+func (f serializableFrame[K]) validate() error {
+	if len(f.Keys) != len(f.Series) {
+		return fmt.Errorf(
+			"frame has %d keys and %d series: the counts must be equal",
+			len(f.Keys), len(f.Series),
+		)
+	}
+	return nil
+}
+
 // MarshalJSON implements json.Marshaler to handle data masking.
 func (f Frame[K]) MarshalJSON() ([]byte, error) {
 	if !f.mask.enabled {
@@ -324,6 +336,9 @@ func (f *Frame[K]) UnmarshalJSON(data []byte) error {
 	if err := json.Unmarshal(data, &frame); err != nil {
 		return err
 	}
+	if err := frame.validate(); err != nil {
+		return err
+	}
 	f.keys = frame.Keys
 	f.series = frame.Series
 	return nil
@@ -366,10 +381,15 @@ func (f Frame[K]) EncodeMsgpack(enc *msgpack.Encoder) error {
 // DecodeMsgpack can continue using serializableFrame
 func (f *Frame[K]) DecodeMsgpack(dec *msgpack.Decoder) error {
 	var frame serializableFrame[K]
-	err := dec.Decode(&frame)
+	if err := dec.Decode(&frame); err != nil {
+		return err
+	}
+	if err := frame.validate(); err != nil {
+		return err
+	}
 	f.keys = frame.Keys
 	f.series = frame.Series
-	return err
+	return nil
 }
 
 // Get gets all series in the frame matching the given key.
